@@ -237,7 +237,10 @@ class Locals:
     def __init__(self, root):
         self.defs = {}
         self.multi = set()
+        self.types = {}
         for x in walk(root):
+            if x["k"] == "Path" and x.get("rk") == "Local" and "ty" in x:
+                self.types.setdefault(x["res"], x["ty"])
             if x["k"] == "Let" and x["pat"]["k"] == "Bind" and "init" in x and "sub" not in x["pat"]:
                 i = x["pat"]["id"]
                 if i in self.defs:
@@ -378,7 +381,84 @@ def path_to(root, target):
     return None
 
 
+PURE_METHODS = {"is_empty", "len", "is_some", "is_none", "is_ok", "is_err", "contains", "starts_with", "ends_with", "eq", "ne", "lt", "le",
+                "gt", "ge", "saturating_sub", "saturating_add", "min", "max", "clone", "as_ref", "as_str", "to_owned", "abs", "is_dir",
+                "is_file", "is_symlink", "contains_key", "first", "last", "get", "unwrap_or", "unwrap_or_default"}
+_LOCALS_CACHE = {}
+
+
+def is_pure(n, depth=0):
+    """expression without side effects the analyses care about (no crate calls, no `?`, no assignment)"""
+    k = n["k"]
+    if depth > 12:
+        return False
+    if k in ("Path", "Lit"):
+        return True
+    if k in ("Field", "Un", "Cast", "Ref"):
+        return is_pure(n["e"], depth + 1)
+    if k == "Bin":
+        return is_pure(n["l"], depth + 1) and is_pure(n["r"], depth + 1)
+    if k == "Index":
+        return is_pure(n["e"], depth + 1) and is_pure(n["i"], depth + 1)
+    if k == "Tup":
+        return all(is_pure(e, depth + 1) for e in n["es"])
+    if k == "Block" and not n["stmts"] and "expr" in n:
+        return is_pure(n["expr"], depth + 1)
+    if k == "MCall" and n["m"] in PURE_METHODS:
+        return is_pure(n["recv"], depth + 1) and all(is_pure(a, depth + 1) for a in n["args"])
+    return False
+
+
+def subst_bool_locals(cond, locs, depth=0):
+    """replace boolean single-assignment locals with a pure definition by that definition (a condition hoisted into a named
+    local reads like the condition itself); returns the same node when nothing applies"""
+    if depth > 4:
+        return cond
+    k = cond["k"]
+    if k == "Path" and cond.get("rk") == "Local" and str(cond.get("ty", "")) in ("bool", "&bool"):
+        d = locs.defs.get(cond["res"])
+        if d is not None and is_pure(d):
+            return subst_bool_locals(d, locs, depth + 1)
+        return cond
+    if k == "Un" and cond["op"] == "!":
+        e = subst_bool_locals(cond["e"], locs, depth)
+        if e is not cond["e"]:
+            c = dict(cond)
+            c["e"] = e
+            return c
+        return cond
+    if k == "Bin" and cond["op"] in ("&&", "||"):
+        l, r = subst_bool_locals(cond["l"], locs, depth), subst_bool_locals(cond["r"], locs, depth)
+        if l is not cond["l"] or r is not cond["r"]:
+            c = dict(cond)
+            c["l"], c["r"] = l, r
+            return c
+        return cond
+    if k == "Block" and not cond["stmts"] and "expr" in cond:
+        e = subst_bool_locals(cond["expr"], locs, depth)
+        return e if e is not cond["expr"] else cond
+    return cond
+
+
 def guards_of(root, target):
+    out = _guards_of(root, target)
+    if out is None:
+        return None
+    key = id(root)
+    if key not in _LOCALS_CACHE or _LOCALS_CACHE[key][0] is not root:
+        _LOCALS_CACHE[key] = (root, Locals(root))
+    locs = _LOCALS_CACHE[key][1]
+    res = []
+    for g in out:
+        if g[0] == "if" and g[1]["k"] != "LetE":
+            c = subst_bool_locals(g[1], locs)
+            res.append(("if", c, g[2]) if c is not g[1] else g)
+        else:
+            res.append(g)
+    return res
+
+
+def _guards_of(root, target):
     """conditions under which `target` is evaluated inside `root`:
     list of (cond_expr, polarity) for If ancestors, ('match', scrut, pat) for Match arms,
     ('loop', node) for enclosing loops, ('closure', node)."""
@@ -434,6 +514,73 @@ def presence_guard(g):
     if base["k"] in ("Field", "Path") or (base["k"] == "MCall" and base["m"] in ("last_mut", "last", "first") and not base["args"]):
         return r
     return None
+
+
+def diverges(n):
+    """the block / expression always leaves by return / break / continue (syntactic check of its last statement)"""
+    n = peel(n, methods=False)
+    if n["k"] in ("Ret", "Break", "Continue"):
+        return True
+    if n["k"] == "Block":
+        last = n["expr"] if "expr" in n else (n["stmts"][-1] if n["stmts"] else None)
+        return last is not None and diverges(last)
+    if n["k"] == "If" and "e" in n:
+        return diverges(n["t"]) and diverges(n["e"])
+    return False
+
+
+def find_ifs(root, pred):
+    """[(if_node, positive_branch, negative_branch)] for every `if c {..} else {..}` (also `match c {true/false}`, which the
+    normaliser reads as if) whose condition is c or !c with pred(c).  For `if c { ..return } rest-of-block` the other branch is
+    the rest of the enclosing block (returned as a synthetic Block)."""
+    out = []
+    for x in walk_exprs(root):
+        if x["k"] != "If":
+            continue
+        c = peel(x["c"], methods=False)
+        neg = False
+        while c["k"] == "Un" and c["op"] == "!":
+            neg = not neg
+            c = peel(c["e"], methods=False)
+        if not pred(c):
+            continue
+        t, e = x["t"], x.get("e")
+        if e is None and diverges(t):
+            chain = path_to(root, x) or []
+            for anc, key in reversed(chain):
+                if anc["k"] == "Block" and key.startswith("stmts["):
+                    i = int(key[6:key.index("]")])
+                    e = {"k": "Block", "sp": anc.get("sp", "?"), "stmts": anc["stmts"][i + 1:], "synthetic": True}
+                    if "expr" in anc:
+                        e["expr"] = anc["expr"]
+                    break
+                if anc["k"] != "Block":
+                    break
+        out.append((x, e if neg else t, t if neg else e))
+    return out
+
+
+def guard_atoms(gs):
+    """atoms known true / false at a node from its `if` guards: (pos, neg) lists of condition nodes.  `a && b` true gives
+    a, b true; `a || b` false gives a, b false; `!a` flips."""
+    pos, neg = [], []
+
+    def add(c, val):
+        c = peel(c, methods=False)
+        if c["k"] == "Un" and c["op"] == "!":
+            add(c["e"], not val)
+        elif c["k"] == "Bin" and c["op"] == "&&" and val:
+            add(c["l"], True)
+            add(c["r"], True)
+        elif c["k"] == "Bin" and c["op"] == "||" and not val:
+            add(c["l"], False)
+            add(c["r"], False)
+        else:
+            (pos if val else neg).append(c)
+    for g in gs or []:
+        if g[0] == "if" and g[1]["k"] != "LetE":
+            add(g[1], g[2])
+    return pos, neg
 
 
 def conjuncts(c):
